@@ -215,20 +215,40 @@ def f64_copysign(x: ir.f64, y: ir.f64) -> ir.f64:
     return math.copysign(x, y)
 
 
+def float_min(x: float, y: float) -> float:
+    """Minimum which propagates nan, and where -0.0 is less than 0.0"""
+    if math.isnan(x) or math.isnan(y):
+        return math.nan
+    elif x == y:
+        return x if math.copysign(1, x) < 0 else y
+    else:
+        return min(x, y)
+
+
+def float_max(x: float, y: float) -> float:
+    """Maximum which propagates nan, and where 0.0 is more than -0.0"""
+    if math.isnan(x) or math.isnan(y):
+        return math.nan
+    elif x == y:
+        return x if math.copysign(1, x) > 0 else y
+    else:
+        return max(x, y)
+
+
 def f32_min(x: ir.f32, y: ir.f32) -> ir.f32:
-    return min(x, y)
+    return float_min(x, y)
 
 
 def f64_min(x: ir.f64, y: ir.f64) -> ir.f64:
-    return min(x, y)
+    return float_min(x, y)
 
 
 def f32_max(x: ir.f32, y: ir.f32) -> ir.f32:
-    return max(x, y)
+    return float_max(x, y)
 
 
 def f64_max(x: ir.f64, y: ir.f64) -> ir.f64:
-    return max(x, y)
+    return float_max(x, y)
 
 
 def f32_abs(x: ir.f32) -> ir.f32:
